@@ -57,3 +57,39 @@ def crc_idl_a(data, crc=0):
             if bit:
                 crc ^= 0x8940
     return crc
+
+
+# ---------------------------------------------------------------- page transmission (EN 300 706 9.3)
+C4_ERASE, C5_NEWSFLASH, C6_SUBTITLE, C7_SUPPRESS, C8_UPDATE, C9_INTERRUPT, C10_INHIBIT, C11_SERIAL = (1 << i for i in range(8))
+HEADER_TEXT = " XXX ZVBI VERIF TEXT    12:00:00"
+
+
+def header(pgno, subno=0, ctrl=0, national=0, text=None):
+    """page header packet X/0.  pgno 0x100..0x8FF, ctrl: or of C4_..C11_, national: C12 C13 C14 as a number (C12 = msb)"""
+    mag = (pgno >> 8) & 7
+    pk = mrag(mag if mag else 8, 0)
+    pk += [ham8(pgno & 15), ham8((pgno >> 4) & 15)]
+    pk += [ham8(subno & 15), ham8(((subno >> 4) & 7) | (8 if ctrl & C4_ERASE else 0)),
+           ham8((subno >> 8) & 15), ham8(((subno >> 12) & 3) | (4 if ctrl & C5_NEWSFLASH else 0) | (8 if ctrl & C6_SUBTITLE else 0))]
+    c7_10 = (1 if ctrl & C7_SUPPRESS else 0) | (2 if ctrl & C8_UPDATE else 0) | (4 if ctrl & C9_INTERRUPT else 0) | (8 if ctrl & C10_INHIBIT else 0)
+    c11_14 = (1 if ctrl & C11_SERIAL else 0) | (2 if national & 4 else 0) | (4 if national & 2 else 0) | (8 if national & 1 else 0)
+    pk += [ham8(c7_10), ham8(c11_14)]
+    txt = list(text if text else HEADER_TEXT)
+    if not text:
+        txt[1:4] = "%X%X%X" % (pgno >> 8, (pgno >> 4) & 15, pgno & 15)
+    pk += [par8(ord(c)) for c in txt[:32]]
+    return pk
+
+
+def row(mag, r, codes):
+    """text row packet X/1..X/25: 40 seven-bit codes"""
+    return mrag(mag, r) + [par8(c) for c in codes]
+
+
+def filler_header(mag):
+    """time filling header (page number FF) terminates nothing by itself but is the usual page terminator"""
+    return header(((mag & 7) << 8) | 0xFF, 0x3F7F, 0)
+
+
+def hexpk(pk):
+    return "".join("%02x" % b for b in pk)
